@@ -2,11 +2,12 @@
 import itertools
 import math
 import re
+import zlib
 from fractions import Fraction
 
 from ..core import Op, jkey
 from ..leanio import InfraError
-from ..rat import rat, frac, round_once_eq
+from ..rat import rat, frac, round_once_eq, tol_eq
 from .. import symx
 from ..symtrace import Sym
 from .. import gen_geom
@@ -61,6 +62,7 @@ NOT_COMPARED = ["error messages (only the error class)",
 M = gen_geom.MAXF
 TOL = "1/1099511627776"   # 2^-40, relative to the coordinate magnitude
 COVER_TOL = 1e-9            # in widths of the buffers
+ZERO_AS = Fraction(1, 10 ** 9)   # a zero buffer is the factor 1e9, i.e. acts as the buffer 1e-9
 CLOSED = ("TimeStamp", "TimeInterval", "BoundingBox")
 SHAPELY = ("Point", "LineString", "Polygon", "MultiPoint", "MultiLineString", "MultiPolygon")
 
@@ -70,16 +72,57 @@ def _f(s):
 
 
 # ---------------------------------------------------------------- implementation adapters
-def _buffer(inp):
+def _arg(s, salt):
+    """the buffer as the caller may pass it: float, int (when integral) or numpy scalar -- chosen from the input
+    itself, so a replay passes the same representation"""
+    q = frac(s)
+    h = zlib.crc32((str(s) + salt).encode())
+    if q.denominator == 1 and h % 3 == 0:
+        return int(q)
+    if h % 3 == 1:
+        import numpy as np
+        return np.float64(float(q))
+    return float(q)
+
+
+def _call(d, inp, k1="tb", k2="fb"):
     from soundevent.geometry import buffer_geometry
-    return buffer_geometry(gen_geom.to_data(inp["g"]), time_buffer=_f(inp["tb"]), freq_buffer=_f(inp["fb"]))
+    return buffer_geometry(d, time_buffer=_arg(inp[k1], "t"), freq_buffer=_arg(inp[k2], "f"))
+
+
+def _buffer(inp):
+    return _call(gen_geom.to_data(inp["g"]), inp)
+
+
+def _pure_call(inp, spy=False):
+    """buffer once (optionally observing the calls into shapely), then look at the argument again and buffer it
+    a second time: the function must not modify its argument nor remember anything"""
+    d = gen_geom.to_data(inp["g"])
+    before = gen_geom.from_data(d)
+    if spy:
+        with _spying() as sp:
+            r = _call(d, inp)
+    else:
+        sp, r = None, _call(d, inp)
+    out = {"val": gen_geom.from_data(r)}
+    if gen_geom.from_data(d) != before:
+        out["impure"] = "the geometry passed as argument was modified"
+    else:
+        try:
+            again = gen_geom.from_data(_call(d, inp))
+        except Exception as e:  # noqa: BLE001
+            again = repr(e)[:80]
+        if again != out["val"]:
+            out["impure"] = "a second call with the same arguments gave a different result"
+    return d, r, out, sp
 
 
 def _impl_closed(inp):
-    return {"val": gen_geom.from_data(_buffer(inp))}
+    return _pure_call(inp)[2]
 
 
 _LIB_CACHE = {}
+_PIPE_CACHE = {}
 
 
 def _uncovered(outer, inner, sx, sy):
@@ -100,21 +143,111 @@ def _uncovered(outer, inner, sx, sy):
     return max(0.0, dist - float(mx.max()) * 2.0 ** -46)
 
 
+class _Spy:
+    """wraps the `shapely` module seen by soundevent.geometry.operations: the real functions run, their
+    arguments and results are kept"""
+
+    def __init__(self, real):
+        self._real = real
+        self.transforms, self.buffers, self.clips = [], [], []
+
+    def __getattr__(self, name):
+        return getattr(self._real, name)
+
+    def transform(self, geometry, transformation, *a, **kw):
+        out = self._real.transform(geometry, transformation, *a, **kw)
+        self.transforms.append((geometry, transformation, out))
+        return out
+
+    def buffer(self, geometry, distance, *a, **kw):
+        out = self._real.buffer(geometry, distance, *a, **kw)
+        self.buffers.append((geometry, distance, out))
+        return out
+
+    def clip_by_rect(self, geometry, xmin, ymin, xmax, ymax, *a, **kw):
+        out = self._real.clip_by_rect(geometry, xmin, ymin, xmax, ymax, *a, **kw)
+        self.clips.append((geometry, (xmin, ymin, xmax, ymax), out))
+        return out
+
+
+class _spying:
+    def __enter__(self):
+        import shapely
+        import soundevent.geometry.operations as ops
+        self.ops, self.saved = ops, getattr(ops, "shapely", None)
+        self.spy = _Spy(shapely)
+        if self.saved is shapely:
+            ops.shapely = self.spy
+        return self.spy
+
+    def __exit__(self, *exc):
+        if self.saved is not None:
+            self.ops.shapely = self.saved
+        return False
+
+
+RHO = Fraction(49, 50)        # < cos(pi/32) - 1/100: GEOS round caps are 32-gons inscribed in the unit circle (apothem 0.99518) and it
+                              # simplifies the input line by up to 1 % of the distance before offsetting
+_DIRS = [((k + 0.5) * math.pi / 16) for k in range(32)]    # mid-edge directions of the caps: the worst ones
+
+
+def _observe(sp, r):
+    """what `buffer_shapely_geometry` asked of shapely in this call, and the contracts of the pipeline theorems
+    evaluated on what GEOS returned; None if the calls were not of the expected shape (nothing is concluded)"""
+    import numpy as np
+    import shapely
+    from soundevent.geometry import geometry_to_shapely
+    if sp is None or len(sp.buffers) != 1 or len(sp.clips) != 1 or len(sp.transforms) != 2:
+        return None
+    (T0, f1, T), (Tb, dist, B), (B0, f2, U), (Uc, rect, C) = sp.transforms[0], sp.buffers[0], sp.transforms[1], sp.clips[0]
+    if Tb is not T or B0 is not B or Uc is not U:
+        return None
+    one = np.array([[1.0, 1.0]])
+    sc, un = np.asarray(f1(one.copy()), dtype=float)[0], np.asarray(f2(one.copy()), dtype=float)[0]
+    obs = {"scaled": [rat(sc[0]), rat(sc[1])], "dist": rat(dist), "unscaled": [rat(un[0]), rat(un[1])],
+           "rect": [rat(x) for x in rect], "qm": rat(B.bounds[2]) if not B.is_empty else None,
+           "returned_clipped": bool(geometry_to_shapely(r).equals(C))}
+    con = {}
+    if not B.is_empty:
+        con["extensive"] = bool(B.covers(T))
+        ux = shapely.get_coordinates(U)[:, 0]
+        con["is_max_time"] = bool(ux.max() <= U.bounds[2])
+        v = shapely.get_coordinates(T)
+        v = v[np.linspace(0, len(v) - 1, min(len(v), 8)).astype(int)]
+        rho = float(RHO)
+        px = (v[:, None, 0] + rho * np.cos(_DIRS)[None, :]).ravel()
+        py = (v[:, None, 1] + rho * np.sin(_DIRS)[None, :]).ravel()
+        con["covers_disc"] = bool(shapely.contains_xy(B, px, py).all())
+        con["scaled_magnitude"] = float(np.abs(v).max())
+    obs["contracts"] = con
+    return obs
+
+
 def _impl_shapely(inp):
     from soundevent.geometry import geometry_to_shapely
-    d = gen_geom.to_data(inp["g"])
-    r = _buffer(inp)
-    rj = gen_geom.from_data(r)
-    _LIB_CACHE[jkey(inp)] = rj
-    unc = _uncovered(geometry_to_shapely(r), geometry_to_shapely(d), _f(inp["tb"]), _f(inp["fb"]))
-    return {"val": rj, "uncovered": repr(unc)}
+    d, r, out, sp = _pure_call(inp, spy=True)
+    _LIB_CACHE[jkey(inp)] = out["val"]
+    try:
+        _PIPE_CACHE[jkey(inp)] = _observe(sp, r)
+    except Exception:  # noqa: BLE001 - an observation that cannot be made concludes nothing
+        _PIPE_CACHE[jkey(inp)] = None
+    out["uncovered"] = repr(_uncovered(geometry_to_shapely(r), geometry_to_shapely(d), _f(inp["tb"]), _f(inp["fb"])))
+    return out
+
+
+def _impl_pipeline(inp):
+    k = jkey(inp)
+    if k not in _PIPE_CACHE:
+        _impl_shapely(inp)
+    obs = _PIPE_CACHE.get(k)
+    return {"val": obs} if obs is not None else {"val": None}
 
 
 def _impl_monotone(inp):
-    from soundevent.geometry import buffer_geometry, geometry_to_shapely
+    from soundevent.geometry import geometry_to_shapely
     d = gen_geom.to_data(inp["g"])
-    r1 = buffer_geometry(d, time_buffer=_f(inp["tb"]), freq_buffer=_f(inp["fb"]))
-    r2 = buffer_geometry(d, time_buffer=_f(inp["tb2"]), freq_buffer=_f(inp["fb2"]))
+    r1 = _call(d, inp)
+    r2 = _call(d, inp, "tb2", "fb2")
     ex = _uncovered(geometry_to_shapely(r2), geometry_to_shapely(r1), _f(inp["tb2"]), _f(inp["fb2"]))
     return {"val": {"excess": repr(ex)}}
 
@@ -141,6 +274,8 @@ def _flat(c):
 
 
 def _cmp_closed_free(inp, io, mo):
+    if io.get("impure"):
+        return io["impure"]
     if "val" not in io or "val" not in mo:
         a = {k: v for k, v in io.items() if k != "trace"}
         return None if a == mo else "implementation and model disagree"
@@ -156,7 +291,7 @@ def _cmp_closed_free(inp, io, mo):
 
 
 def _cmp_shapely(inp, io, mo):
-    a = {k: v for k, v in io.items() if k not in ("trace", "uncovered")}
+    a = {k: v for k, v in io.items() if k not in ("trace", "uncovered", "impure")}
     return None if a == mo else "guard / dispatch of buffer_geometry disagrees with the model"
 
 
@@ -170,6 +305,8 @@ def _holds_closed(ctx, inp, io):
         return None if io.get("raise") == "invalid" else "a negative buffer was not rejected with ValueError"
     if "val" not in io:
         return f"buffer_geometry raised {io.get('raise')} on a valid geometry with non-negative buffers"
+    if io.get("impure"):
+        return io["impure"]
     p = _post(ctx, inp, io["val"])
     if not p["valid"]:
         return "result is not a valid geometry (leaves the domain or is mis-ordered)"
@@ -209,6 +346,8 @@ def _holds_shapely(ctx, inp, io):
     facts = f"type={inp['g']['type']} zero_buffer={tb == 0 or fb == 0} reversal={_has_reversal(inp['g'])} ratio={_ratio(inp):.3e}"
     if "val" not in io:
         return f"buffer_geometry raised {io.get('raise')} on a valid geometry with non-negative buffers; {facts}"
+    if io.get("impure"):
+        return io["impure"]
     p = _post(ctx, inp, io["val"])
     if not p["poly"]:
         ctx.tally("shapely:result-not-polygonal")     # not required by the property; the checks below still apply
@@ -228,8 +367,9 @@ def _holds_monotone(ctx, inp, io):
         return f"buffer_geometry raised {io.get('raise')}; type={inp['g']['type']}"
     ex = float(io["val"]["excess"])
     if not ex <= COVER_TOL:
+        tiny = any(frac(inp[a]) == 0 and 0 < frac(inp[b]) < ZERO_AS for a, b in (("tb", "tb2"), ("fb", "fb2")))
         return (f"larger buffers do not give a superset; excess={ex:.6e} widths of the larger buffers; "
-                f"type={inp['g']['type']}")
+                f"type={inp['g']['type']} zero_vs_tiny={tiny}")
     return None
 
 
@@ -242,6 +382,60 @@ def _safe(fn):
         except Exception as e:  # noqa: BLE001
             return f"property monitor could not be evaluated on the implementation's output: {e!r}"
     return wrapped
+
+
+def _cmp_pipeline(inp, io, mo):
+    """the calls into shapely against `pipelineSkeleton` (probe points (1, 1)): the factors are one correctly
+    rounded division, the inverse map and the clip rectangle go through a second rounding (tolerance)"""
+    obs = io.get("val") if isinstance(io, dict) else None
+    if not obs or "val" not in mo:
+        return None            # rejected before the pipeline, or the calls were not observed: nothing to compare
+    m = mo["val"]
+    for a, b in zip(obs["scaled"], m["scaled"]):
+        if not round_once_eq(frac(b), _f(a)):
+            return f"scale factor {_f(a)!r} is not the correctly rounded model value {b}"
+    if frac(obs["dist"]) != frac(m["dist"]):
+        return f"buffer distance {obs['dist']} in the scaled space, model {m['dist']}"
+    for a, b in zip(obs["unscaled"], m["unscaled"]):
+        if not tol_eq(frac(b), _f(a)):
+            return f"inverse scale factor {_f(a)!r}, model {b}"
+    for i in (0, 1, 3):
+        if frac(obs["rect"][i]) != frac(m["rect"][i]):
+            return f"clip rectangle {obs['rect']}, model {m['rect']}"
+    if obs["qm"] is not None and not tol_eq(frac(m["rect"][2]), _f(obs["rect"][2])):
+        return f"clip rectangle ends at {_f(obs['rect'][2])!r}, model {m['rect'][2]}"
+    if not obs["returned_clipped"]:
+        return "the returned geometry is not the clipped shape"
+    return None
+
+
+def _holds_pipeline(ctx, inp, io):
+    """hypotheses of the pipeline theorems about GEOS, evaluated on what GEOS returned in this call"""
+    if not isinstance(io, dict) or "val" not in io:
+        return None            # rejected before the pipeline was reached
+    obs = io["val"]
+    if not obs:
+        ctx.tally("pipeline:not-observed")
+        return None
+    con = obs.get("contracts") or {}
+    if not con:
+        return None
+    tb, fb = frac(inp["tb"]), frac(inp["fb"])
+    ctx.contract("geos_bounds_is_max_time", con["is_max_time"], inp, con)
+    # GEOS's buffer in its regular regime (the known findings describe what happens outside of it)
+    regular = (tb > 0 and fb > 0 and not _has_reversal(inp["g"]) and _ratio(inp) < 1e4
+               and con["scaled_magnitude"] < 1e9)
+    if regular:
+        ctx.contract("geos_buffer_extensive", con["extensive"], inp, con,
+                     "GEOS's buffer of the scaled geometry does not contain it (hypothesis `Extensive`)")
+        ctx.contract("geos_buffer_covers_disc", con["covers_disc"], inp, con,
+                     f"GEOS's buffer misses a point within {RHO} of a vertex (hypothesis `CoversDisc {RHO}`)")
+    return None
+
+
+def _to_model_pipeline(inp):
+    obs = _PIPE_CACHE.get(jkey(inp)) or {}
+    return {"px": "1", "py": "1", "qx": "1", "qy": "1", "qm": obs.get("qm") or "0", "tb": inp["tb"], "fb": inp["fb"]}
 
 
 def _to_model_shapely(inp):
@@ -265,6 +459,9 @@ OPS = {
     "monotone_shapely": Op("monotone_shapely", _impl_monotone, to_model=lambda i: {"g": i["g"]},
                            compare=lambda i, a, b: None, holds=_safe(_holds_monotone), determined=False,
                            mode="tolerance", model_op="valid"),
+    "pipeline_args": Op("pipeline_args", _impl_pipeline, to_model=_to_model_pipeline, compare=_cmp_pipeline,
+                        holds=_safe(_holds_pipeline), determined=False, mode="tolerance",
+                        nontrivial=lambda i, o: bool(isinstance(o, dict) and o.get("val"))),
     "valid": Op("valid", _impl_valid),
 }
 
@@ -896,6 +1093,7 @@ def _shapely_stage(ctx):
     zc = list(zero_buffer_cases(ctx.rng, ctx.budget(360, 3600)))
     ctx.tally("shapely:zero-buffer", len(zc))
     ctx.run_cases(OPS["buffer_shapely"], zc)
+    ctx.run_cases(OPS["pipeline_args"], cases + zc)
     results = [v for v in list(_LIB_CACHE.values())[:ctx.budget(150, 1500)] if v]
     ctx.run_cases(OPS["valid"], valid_cases(ctx.rng, results, ctx.budget(180, 2700)))
 
